@@ -2,6 +2,7 @@
  * usage: dec_fuzz <cases.bin> <errdir> [only_case]
  * cases.bin: repeated { u32 id; u32 annexb; u32 nchunks; { u32 len; bytes }* }
  * prints "CASE <id> <ok|exit N|signal N|timeout> frames_ok=<n> pictures=<n>" per case. */
+#include "../no_rt.h"   /* ordinary threads instead of SCHED_FIFO/99 (see the header) */
 #include <stdio.h>
 #include <stdlib.h>
 #include <string.h>
